@@ -132,6 +132,10 @@ class CompileEngine:
         path = os.path.join(self.dir, "src", "bin", self._bin_name(i) + ".rs")
         with open(path, "w") as f:
             f.write("".join(parts))
+        if os.environ.get("VERIF_COVERAGE"):   # diagnostic mode: keep a copy of every generated program for `inproc cover`
+            d = os.path.join(os.environ["VERIF_COVERAGE"], "programs")
+            os.makedirs(d, exist_ok=True)
+            shutil.copy(path, os.path.join(d, "%s_%s_%d.rs" % (self.prop.lower(), self.toolchain or "stable", len(os.listdir(d)))))
         return spans
 
     def _cargo(self, bins):
